@@ -1,2 +1,46 @@
-(* C18 — incremental construction. (theorems added by Proofs/LayoutIdem.v) *)
-From VF Require Import Model.Writer Proofs.LayoutCorrect Gen.GeneratedOk.
+(* C18 — incrementally built structures equal the one-shot definition. *)
+From Coq Require Import Lia.
+From VF Require Import Model.Writer Proofs.LayoutCorrect Proofs.CommitProps Gen.GeneratedOk.
+Open Scope string_scope. Open Scope list_scope. Open Scope Z_scope.
+
+(* The layout loop (StructureMetaType._calculate_size_and_offsets) run over fields that already carry the offsets an earlier run
+   computed reproduces those offsets and the same final state — for every field list (plain, dynamic and bit fields, packed or
+   aligned with power-of-two alignments) and every starting state. *)
+Theorem layout_idempotent : forall c al fs, fresh fs -> aligns_ok c al fs ->
+  forall st offs st', layout_go c al fs st = Ok (offs, st') -> layout_go c al (set_offsets fs offs) st = Ok (offs, st').
+Proof. exact layout_go_idem. Qed.
+(* Committing a prefix and then laying out (prefix with its offsets) ++ (new fields) is laying out the whole list *)
+Theorem layout_incremental : forall c al a b la, fresh a -> aligns_ok c al a ->
+  layout_struct c al a = Ok la -> layout_struct c al (set_offsets a (l_offs la) ++ b) = layout_struct c al (a ++ b).
+Proof. exact commit_then_extend. Qed.
+(* Every way of splitting a field list into add_field/commit steps — a commit after each field, after batches, or once — ends with exactly
+   the fields and offsets (and the same error, if the definition is rejected) of the one-shot definition: nothing of an intermediate state survives *)
+Theorem every_splitting_is_oneshot : forall c al chunks, chunks <> [] -> fresh (List.concat chunks) -> aligns_ok c al (List.concat chunks) ->
+  build c al [] chunks = oneshot c al (List.concat chunks).
+Proof. exact incremental_is_oneshot. Qed.
+
+Print Assumptions layout_idempotent.
+Print Assumptions layout_incremental.
+Print Assumptions every_splitting_is_oneshot.
+
+(* non-vacuity: bit fields, a dynamic array and aligned members, split three ways *)
+Definition ex_cfg := mkCfg "<" (PInt 8 false true) 8 [] [].
+Definition u8 := TPrim (PInt 1 false true) 1.
+Definition u32 := TPrim (PInt 4 false true) 4.
+Definition f1 := Fld "a" false u8 (Some 3) None.
+Definition f2 := Fld "b" false u8 (Some 5) None.
+Definition f3 := Fld "w" false u32 None None.
+Definition f4 := Fld "n" false u8 None None.
+Definition f5 := Fld "d" false (TArr (TPrim (PInt 2 false true) 2) (LExpr ["n"] false)) None None.
+Definition f6 := Fld "t" false u32 None None.
+Example ex_hyp : fresh [f1; f2; f3; f4; f5; f6] /\ aligns_ok ex_cfg true [f1; f2; f3; f4; f5; f6].
+Proof.
+  split; [repeat constructor|]. intros _.
+  repeat (apply Forall_cons; [first [exists 0; split; [lia|reflexivity] | exists 1; split; [lia|reflexivity] | exists 2; split; [lia|reflexivity]]|]). apply Forall_nil.
+Qed.
+Example ex_splits :
+  build ex_cfg true [] [[f1]; [f2]; [f3]; [f4]; [f5]; [f6]] = oneshot ex_cfg true [f1; f2; f3; f4; f5; f6] /\
+  build ex_cfg true [] [[f1; f2; f3]; [f4; f5; f6]] = oneshot ex_cfg true [f1; f2; f3; f4; f5; f6] /\
+  option_map (map f_off) (match oneshot ex_cfg true [f1; f2; f3; f4; f5; f6] with Ok x => Some x | Err _ => None end)
+    = Some [Some 0; None; Some 4; Some 8; Some 10; None].
+Proof. vm_compute. repeat split. Qed.
